@@ -110,11 +110,13 @@ P("C16", [("K8", None), ("K1", r"^k1_(c_bv_shifted_in_from|c_db_shifted_in_from|
   "the 'exactly when' over whole values, the instantiate/canonicalize round trip, inversion. Assumed: binary_search, Vec::insert as compiled by Kani.",
   "contract-based verification: Kani harness contracts compiled inside chalk-solve (tracing replaced by a no-op stand-in), bounded; Verus on mechanically extracted function text")
 
-P("C09", [("K11", None), ("V3", None), ("V17", None)],
+P("C09", [("K11", None), ("V3", None), ("V17", None), ("V28", None), ("V27", None)],
   "model_checking",
   "Partial (one invariant + the stopping rule): Kani proves on the real recursive-solver Stack that its depth can never exceed the configured overflow_depth (symbolic): a push below "
   "the limit adds exactly one entry, a push at the limit aborts without adding one; Verus proves reached_fixed_point stops exactly when the answer repeats or is ambiguous, and that the two size guards do what bounds the work: an oversize "
   "subgoal is never tabled by the SLG engine (abstract_positive_literal returns None) and an oversize obligation is never queued by the recursive solver (push_obligation marks cannot_prove). "
+  "Verus proves the push half of the stack contract for EVERY height on the real struct (V27: below the limit exactly one entry is added and the height stays <= overflow_depth). "
+  "Verus also proves that the measure the limit is compared with is the size of the largest outermost type of a goal, each type measured on its own (TySizeVisitor::visit_ty, V28). "
   "BOUNDED in the number of entries (4/6). Termination proper is not claimed: neither tool proves it here.",
   "Not reached: termination of the SLG engine (subgoal abstraction, truncation), of Fulfill::fulfill and of the fixed-point loop itself; 'without panicking' is not claimed (the overflow push panics by design).",
   "contract-based verification with Kani harness contracts (bounded) + Verus on extracted text")
@@ -176,7 +178,7 @@ P("C28", [("V5", None), ("K12", r"_ans"), ("V1", None), ("K8", r"laws"), ("V8", 
   "Not reached: arity/kind agreement of the substitution with the query's binders (established inside resolution and canonicalisation), Fulfill::solve.",
   "contract-based verification: Verus on extracted text + Kani harness contracts")
 
-P("C12", [("V22", None), ("V26", None)],
+P("C12", [("V22", None), ("V26", None), ("V27", None)],
   "proof",
   "Partial (the SLG recovery mechanism named in the anchors): Verus proves on the verbatim text of <SolveState as Drop>::drop, SolveState::unwind_stack and the Stack methods they use that, "
   "whatever the stack looks like when the solve state is dropped, afterwards the stack is empty and every strand the stack held - the top entry's active strand included - is back at the end of the "
@@ -189,12 +191,13 @@ P("C12", [("V22", None), ("V26", None)],
   "SolveState on unwinding; the stack invariant 'every entry below the top holds its suspended strand'.",
   "contract-based deductive verification: Verus on mechanically extracted function text, in-place loop invariant with termination measure, proved sequence lemmas")
 
-P("C02", [("V23", None), ("V3", None), ("V17", None)],
+P("C02", [("V23", None), ("V3", None), ("V17", None), ("V28", None)],
   "proof",
   "Partial (two of the four mechanisms named in the anchors, recursive solver): Verus proves on the verbatim text that the fixed-point iteration of solve_new_subgoal starts from 'no solution' for an "
   "inductive goal (initial_value, V3) and returns only with an answer that is a fixed point of its last iteration - or that did not depend on the goal itself - stored unchanged for the goal (V23); that the "
   "iteration stops exactly when the answer repeats or is ambiguous (reached_fixed_point, V3); and that the size limit acts as stated: an oversize subgoal is never tabled / an oversize obligation is marked "
-  "cannot-prove, nothing else is (V17). Unbounded; partial correctness for the loop.",
+  "cannot-prove, nothing else is (V17); and that what the limit is compared with is the size of the LARGEST outermost type of the goal, each measured on its own (TySizeVisitor::visit_ty resets its running "
+  "count after every outermost type, counts a bound unknown as the type it is bound to, and leaves its depth as it found it, V28). Unbounded; partial correctness for the loop.",
   "Not reached: 'never Ambiguous for goals without unknowns' as a whole-search statement - Fulfill's obligation loop (mut self, iterator code, P25), the SLG side (on_no_strands_left, clear_strands_after_cycle: "
   "closures over &mut self), and that the answer is the one the logical meaning dictates (C01).",
   "contract-based deductive verification: Verus on mechanically extracted function text, ghost history in the abstract search graph, in-place loop invariant")
